@@ -1002,6 +1002,7 @@ Section Final.
   Variable V : Type.
   Variable veqb : V -> V -> bool.
   Variable vzero : V.
+  Variable scal : nat -> bool.
   Variable srt : list Z -> list nat.
   Hypothesis srt_ok : is_argsort srt.
   Variable f : list V -> V.
@@ -1102,14 +1103,14 @@ Section Final.
     exists v, forall q0, in_range nd q0 -> fill_at V vzero f args q0 = v.
 
   Lemma get_fill_value_spec args sh nd :
-    match get_fill_value V veqb vzero f args sh nd with
+    match get_fill_value V veqb vzero f scal args sh nd with
     | FillSparse fill => forall q0, in_range nd q0 -> fill_at V vzero f args q0 = fill
     | FillDense => ~ constant_fill args nd /\ sh = nd
     | FillError => ~ constant_fill args nd /\ sh <> nd
     end.
   Proof.
     unfold get_fill_value. set (arr := map (fill_at V vzero f args) (all_indices nd)).
-    set (fill := match arr with v :: _ => v | [] => zeros_fill V vzero f args end).
+    set (fill := match arr with v :: _ => v | [] => zeros_fill V vzero f scal args end).
     destruct (forallb (veqb fill) arr) eqn:Hall.
     - intros q0 Hq0. rewrite forallb_forall in Hall. symmetry. apply veqb_eq. apply Hall.
       unfold arr. apply in_map. apply all_indices_In. exact Hq0.
@@ -1247,11 +1248,11 @@ Section Final.
                     forall q, in_range sh q -> den r q = F args0 q
     end.
 
-  Theorem elemwise_den_proof (args0 : list (operand V)) :
+  Theorem elemwise_sc_den_proof (args0 : list (operand V)) :
     Forall (op_ok V) args0 -> existsb (is_sparse V) args0 = true ->
-    elemwise_post args0 (elemwise V veqb vzero f srt args0).
+    elemwise_post args0 (elemwise_sc V veqb vzero f scal srt args0).
   Proof.
-    intros Hok0 Hsp. unfold elemwise. rewrite Hsp. cbn [negb]. set (args := map (preprocess V) args0).
+    intros Hok0 Hsp. unfold elemwise_sc. rewrite Hsp. cbn [negb]. set (args := map (preprocess V) args0).
     assert (Hshapes : map (op_shape V) args = map (op_shape V) args0).
     { unfold args. rewrite map_map. apply map_ext. intros a. apply preprocess_shape. }
     assert (Hok : Forall (op_ok V) args).
@@ -1266,7 +1267,7 @@ Section Final.
         apply Forall_forall. intros s0 Hs0. apply in_map_iff in Hs0. destruct Hs0 as [a [<- Ha]].
         rewrite Forall_forall in Hok. specialize (Hok a Ha). destruct a; simpl in *; tauto. }
       pose proof (get_fill_value_spec args sh nd) as Hg.
-      destruct (get_fill_value V veqb vzero f args sh nd) as [fill| |].
+      destruct (get_fill_value V veqb vzero f scal args sh nd) as [fill| |].
       + assert (Hcf : constant_fill args nd) by (exists fill; exact Hg).
         destruct (existsb (Z.eqb 0) sh) eqn:Ez.
         * unfold elemwise_post. fold args. exists sh, nd. rewrite <- Hshapes.
@@ -1289,6 +1290,14 @@ Section Final.
       apply Hn. rewrite Hshapes. eapply rel_compat; eauto.
   Qed.
 End Final.
+
+(* the same for [elemwise] (no Python scalar among the operands) *)
+Theorem elemwise_den_proof (V : Type) (veqb : V -> V -> bool) (vzero : V) (srt : list Z -> list nat)
+        (srt_ok : is_argsort srt) (f : list V -> V) (veqb_eq : forall a b, veqb a b = true <-> a = b)
+        (args0 : list (operand V)) :
+  Forall (op_ok V) args0 -> existsb (is_sparse V) args0 = true ->
+  elemwise_post V veqb vzero f args0 (elemwise V veqb vzero f srt args0).
+Proof. exact (elemwise_sc_den_proof V veqb vzero (fun _ => false) srt srt_ok f veqb_eq args0). Qed.
 
 (* ================================================================== compositions ("programs") *)
 
@@ -1579,14 +1588,15 @@ Section Irrelevance.
   Variable V : Type.
   Variable veqb : V -> V -> bool.
   Variable vzero : V.
+  Variable scal : nat -> bool.
   Variable f : list V -> V.
   Hypothesis veqb_eq : forall a b, veqb a b = true <-> a = b.
 
   Theorem elemwise_sort_irrelevant_proof (s1 s2 : list Z -> list nat) (args0 : list (operand V)) :
     is_argsort s1 -> is_argsort s2 -> Forall (op_ok V) args0 ->
-    elemwise V veqb vzero f s1 args0 = elemwise V veqb vzero f s2 args0.
+    elemwise_sc V veqb vzero f scal s1 args0 = elemwise_sc V veqb vzero f scal s2 args0.
   Proof.
-    intros O1 O2 Hok0. unfold elemwise. destruct (negb (existsb (is_sparse V) args0)); [reflexivity|].
+    intros O1 O2 Hok0. unfold elemwise_sc. destruct (negb (existsb (is_sparse V) args0)); [reflexivity|].
     set (args := map (preprocess V) args0).
     assert (Hok : Forall (op_ok V) args).
     { unfold args. apply Forall_forall. intros a Ha. apply in_map_iff in Ha. destruct Ha as [a0 [<- Ha0]].
@@ -1599,8 +1609,8 @@ Section Irrelevance.
     { eapply rel_shape_ok; [|exact Hs].
       apply Forall_forall. intros s0 Hs0. apply in_map_iff in Hs0. destruct Hs0 as [a [<- Ha]].
       rewrite Forall_forall in Hok. specialize (Hok a Ha). destruct a; simpl in *; tauto. }
-    pose proof (get_fill_value_spec V veqb vzero f veqb_eq args sh nd) as Hg.
-    destruct (get_fill_value V veqb vzero f args sh nd) as [fill| |]; try reflexivity.
+    pose proof (get_fill_value_spec V veqb vzero scal f veqb_eq args sh nd) as Hg.
+    destruct (get_fill_value V veqb vzero f scal args sh nd) as [fill| |]; try reflexivity.
     destruct (existsb (Z.eqb 0) sh); [reflexivity|].
     destruct (sparse_branch V veqb vzero s1 O1 f veqb_eq args sh nd fill Hok Hs Hshok Hreln HBn Hg)
       as [p1 [E1 [r1 [C1 [A1 [A2 [A3 [A4 A5]]]]]]]].
@@ -1622,19 +1632,19 @@ Section Irrelevance.
   Theorem elemwise2_is_elemwise_proof (srt : list Z -> list nat) (a b : coo V) :
     is_argsort srt -> canonical V a -> canonical V b -> shape_ok (c_shape a) ->
     c_shape a = c_shape b -> c_shape a <> [] ->
-    elemwise V veqb vzero f srt [OSp a; OSp b] = OutSparse (elemwise2 V veqb vzero f a b).
+    elemwise_sc V veqb vzero f scal srt [OSp a; OSp b] = OutSparse (elemwise2 V veqb vzero f a b).
   Proof.
     intros Osrt Ha Hb Hoka Hsh Hne.
     assert (Hok : Forall (op_ok V) [OSp a; OSp b]).
     { constructor; [split; assumption|]. constructor; [split; [assumption|rewrite <- Hsh; assumption]|constructor]. }
-    pose proof (elemwise_den_proof V veqb vzero srt Osrt f veqb_eq [OSp a; OSp b] Hok eq_refl) as Hpost.
+    pose proof (elemwise_sc_den_proof V veqb vzero scal srt Osrt f veqb_eq [OSp a; OSp b] Hok eq_refl) as Hpost.
     assert (Hpre : map (preprocess V) [OSp a; OSp b] = [OSp a; OSp b]).
     { simpl. rewrite <- Hsh. destruct (c_shape a); [congruence|reflexivity]. }
     assert (Hrel : np_broadcast_rel (map (op_shape V) [OSp a; OSp b]) (c_shape a)).
     { simpl. rewrite <- Hsh. apply rel_pair_same. }
     destruct (elemwise2_den_proof V veqb vzero f veqb_eq a b Ha Hb Hsh) as [E1 [E2 [E3 [E4 E5]]]].
     unfold elemwise_post in Hpost. rewrite Hpre in Hpost. simpl nd_shapes in Hpost.
-    destruct (elemwise V veqb vzero f srt [OSp a; OSp b]) as [r|d|e].
+    destruct (elemwise_sc V veqb vzero f scal srt [OSp a; OSp b]) as [r|d|e].
     - destruct Hpost as [sh [nd [R1 [R2 [_ [P1 [P2 [P3 [P4 P5]]]]]]]]].
       assert (Esh : sh = c_shape a) by (eapply rel_unique; eauto). rewrite Esh in *. clear Esh.
       assert (nd = []) by (destruct R2 as [L _]; destruct nd; [reflexivity|simpl in L; lia]). subst nd.
